@@ -229,4 +229,123 @@ theorem skipping_the_wait_loses_samples_witness :
         run { σ with mpc := .hWaited 1000 } [.maint .hSetMin, .maint (.hGc 1000 250)]).map
       (fun σ => (σ.readers.take 1).map fun r => (view σ r).map (·.t)) = some [[1000, 1500, 250]] := by decide
 
+/-! ### The published out-of-order bounds (Head.MinOOOTime) recomputed by the head GC -/
+
+section OooBounds
+open Prom.OooBounds
+
+theorem minBy_le {α : Type} (f : α → Int) : ∀ (l : List α) (a : Int),
+    minBy f l a ≤ a ∧ ∀ x ∈ l, minBy f l a ≤ f x := by
+  intro l
+  induction l with
+  | nil => intro a; simp [minBy]
+  | cons y ys ih =>
+    intro a
+    have h := ih (min a (f y))
+    simp only [minBy, List.foldl_cons] at h ⊢
+    refine ⟨by omega, ?_⟩
+    intro x hx
+    rcases List.mem_cons.mp hx with rfl | hx
+    · omega
+    · exact h.2 x hx
+
+theorem minBy_attained {α : Type} (f : α → Int) : ∀ (l : List α) (a : Int),
+    minBy f l a = a ∨ ∃ x ∈ l, minBy f l a = f x := by
+  intro l
+  induction l with
+  | nil => intro a; simp [minBy]
+  | cons y ys ih =>
+    intro a
+    have h := ih (min a (f y))
+    simp only [minBy, List.foldl_cons] at h ⊢
+    rcases h with h | ⟨x, hx, h⟩
+    · by_cases hc : a ≤ f y
+      · left; omega
+      · right; exact ⟨y, by simp, by omega⟩
+    · right; exact ⟨x, by simp [hx], h⟩
+
+/-- **recount_covers_every_chunk.** The GC's recount — the minimum over ALL surviving out-of-order chunks,
+    m-mapped (in whatever order they were m-mapped) and head chunk, of all series — is a lower bound of
+    every out-of-order sample in the head. -/
+theorem recount_covers_every_chunk (ss : List OooSeries) (s : OooSeries) (hs : s ∈ ss)
+    (c : List Int) (hc : c ∈ chunks s) (t : Int) (ht : t ∈ c) : recount ss ≤ t := by
+  have h1 := (minBy_le chunkMin (ss.flatMap chunks) top).2 c (List.mem_flatMap.mpr ⟨s, hs, hc⟩)
+  have h2 := (minBy_le id c top).2 t ht
+  simp only [recount, chunkMin, id] at *
+  omega
+
+/-- …and it is tight: unless nothing is left, it is the time of a sample that is in the head (so the
+    suite compares the published value with the recount for EQUALITY, after the `headMaxt - window` clamp). -/
+theorem recount_attained (ss : List OooSeries) :
+    recount ss = top ∨ ∃ s ∈ ss, ∃ c ∈ chunks s, ∃ t ∈ c, recount ss = t := by
+  rcases minBy_attained chunkMin (ss.flatMap chunks) top with h | ⟨c, hc, h⟩
+  · left; exact h
+  · obtain ⟨s, hs, hcs⟩ := List.mem_flatMap.mp hc
+    rcases minBy_attained id c top with h2 | ⟨t, ht, h2⟩
+    · left; simp only [recount, chunkMin] at *; omega
+    · right; exact ⟨s, hs, c, hcs, t, ht, by simp only [recount, chunkMin, id] at *; omega⟩
+
+theorem published_le (headMaxt window rc : Int) : published headMaxt window rc ≤ rc := by
+  simp only [published]; split <;> omega
+
+/-- **gc_guard_of_recount** (link to the protocol model): if every out-of-order sample that is still in the
+    head lies in one of the chunks the GC walks over, the value the GC publishes satisfies the guard of
+    the model's `hGc`/`oGc` step (`newOLo ≤ s.t` for every such sample) — the step the suite's model takes
+    with `newOLo := published … (recount …)` is never rejected for its lower bound, and by
+    `never_missing` no reader misses an out-of-order head sample. -/
+theorem gc_guard_of_recount (σ : State) (gcRef : Nat) (ss : List OooSeries) (headMaxt window : Int)
+    (hcov : ∀ s ∈ σ.data, s.ooo = true → gcRef < s.ref → ∃ k ∈ ss, ∃ c ∈ chunks k, s.t ∈ c) :
+    (σ.data.all fun s => !s.ooo || decide (s.ref ≤ gcRef)
+        || decide (published headMaxt window (recount ss) ≤ s.t)) = true := by
+  simp only [List.all_eq_true, Bool.or_eq_true, Bool.not_eq_eq_eq_not, Bool.not_true, decide_eq_true_eq]
+  intro s hs
+  by_cases ho : s.ooo = true
+  · by_cases hr : s.ref ≤ gcRef
+    · exact Or.inl (Or.inr hr)
+    · obtain ⟨k, hk, c, hc, ht⟩ := hcov s hs ho (by omega)
+      have := recount_covers_every_chunk ss k hk c hc s.t ht
+      have := published_le headMaxt window (recount ss)
+      exact Or.inr (by omega)
+  · exact Or.inl (Or.inl (by simpa using ho))
+
+/-- Out-of-order samples arriving newest-first with OutOfOrderCapMax = 4: the first m-mapped chunk holds
+    805…835, the second (m-mapped LATER) the older 505…535, the head chunk 905. -/
+def descSeries : OooSeries := [805, 815, 825, 835, 505, 515, 525, 535, 905].foldl (insert 4) {}
+
+example : descSeries = { mmapped := [[805, 815, 825, 835], [505, 515, 525, 535]], head := [905] } := by decide
+
+/-- **first_chunk_only_unsound_witness.** `oooMmappedChunks` is in arrival order: looking only at its
+    first element ("the oldest m-mapped chunk is at the front") publishes 805 although 505 is in the head. -/
+theorem first_chunk_only_unsound_witness :
+    recount [descSeries] = 505 ∧ firstOnly [descSeries] = 805 := by decide
+
+def descData : List Sample :=
+  [⟨0, 0, 1, false, 0⟩, ⟨0, 500, 2, false, 0⟩, ⟨0, 1000, 3, false, 0⟩, ⟨0, 2000, 4, false, 0⟩] ++
+  ([805, 815, 825, 835, 505, 515, 525, 535, 905].map fun t => ⟨0, t, t, true, 1⟩)
+
+def descActs (newOLo : Int) : List Act :=
+  [.maint (.hWrite 0 1000 1), .maint .hSwap, .maint .hStoreTrunc, .maint .hSetFlag, .maint .hWait,
+   .maint .hSetMin, .maint (.hGc 1000 newOLo)]
+
+example : initOk descData 0 505 905 = true := by decide
+
+/-- The model rejects the GC step that publishes the first-chunk-only value and accepts the recount
+    (also after the `headMaxt - window` clamp, here 2000 - 600). -/
+theorem gc_step_rejects_first_chunk_only_witness :
+    run (initState descData 0 505 905) (descActs (firstOnly [descSeries])) = none ∧
+    (run (initState descData 0 505 905)
+      (descActs (published 2000 600 (recount [descSeries])))).isSome = true := by decide
+
+/-- What the lower bound is for: force MinOOOTime to 805 after the truncation (a state the protocol cannot
+    reach) and a query over [500, 540] — entirely below it — skips the out-of-order head reader; it is
+    served by the block [0,1000) only and misses 505…535, which are in no block yet. -/
+theorem wrong_min_ooo_time_loses_samples_witness :
+    ((run (initState descData 0 505 905) (descActs 505)).bind fun σ =>
+        run { σ with oooLo := 805 } ([.maint .hClear, .spawn 500 540] ++
+          [RAct.rlock, .readMin, .register, .trackOOO, .runlock].map (Act.reader 0))).map
+      (fun σ => σ.readers.map fun r => ((view σ r).map (·.t), (expected σ.data r.lo r.hi).map (·.t)))
+      = some [([500], [500, 505, 515, 525, 535])] := by decide
+
+end OooBounds
+
 end Prom.C06
